@@ -252,10 +252,13 @@ RoundFindings(ev) ==
     \* b was fed one packet per call: its observations certify that the stream is a sequence of
     \* self-delimiting packets, each decoding without error when delivered alone (C11's antecedent)
     LET A == acc[ev.a]  B == acc[ev.b]
+        \* (the last packet alone may be one that is reported as an error: chaining stops there either way)
         cert == \A i \in 1..Len(B.calls) :
                   LET c == B.calls[i] IN
-                  /\ Len(c.out) = 1 /\ c.out[1].k # "err" /\ ObsWire(c.out[1]) = c.n
-                  /\ (c.out[1].k = "v9" => c.out[1].hdr.count = Len(c.out[1].sets)) IN
+                  /\ Len(c.out) = 1
+                  /\ \/ /\ c.out[1].k # "err" /\ ObsWire(c.out[1]) = c.n
+                        /\ (c.out[1].k = "v9" => c.out[1].hdr.count = Len(c.out[1].sets))
+                     \/ i = Len(B.calls) /\ c.out[1].k = "err" /\ c.out[1].rem = c.buf IN
     IF A.nbytes = B.nbytes /\ B.calls # <<>> /\ cert
       THEN (IF A.out # B.out THEN {<<"C11", "chain", "results", "">>} ELSE {})
            \cup (IF tms[ev.a] # tms[ev.b] THEN {<<"C11", "chain", "cache", "">>, <<"C06", "partition", "cache", "">>} ELSE {})
